@@ -113,7 +113,7 @@ struct Engine {
     std::vector<Word> words;
     std::vector<std::pair<std::string, VState>> bases;
     Result& res;
-    std::unordered_set<u64> digests;
+    DigestSet digests;
     explicit Engine(Result& r) : res(r) {
         impl = LoadLib("libimpl.so");
         fields = AllFields();
